@@ -50,6 +50,9 @@ def run(ctx):
     ctx.guard('C06.analysable', ctx.shared, {'X.full': 'C06.f-round-state-cleared', 'X.recv': 'C06.f-round-state-cleared', 'X.drop': 'C06.f-round-state-cleared'},
               resetrules.check_reset_discipline, ctx, f0, cfgs[0], 'X.drop', 'X.recv', 'X.full')
     ctx.guard('C06.analysable', panic_census, ctx, f0, cfgs[0])
+    ctx.rule('C06.h-validated-by-the-selected-rate', 'every use of a dedicated codec by the default rate (validate included) is governed by the rate decision for the same counts: a supported configuration is never rejected by the other rate\'s predicate (clause shared with C09.b)')
+    from . import c09
+    ctx.guard('C06.analysable', ctx.shared, {'C09.b-single-source': 'C06.h-validated-by-the-selected-rate'}, c09.check, ctx, f0, cfgs[0])
     ctx.guard('C06.analysable', c04.store_resize_complete, ctx, f0, cfgs[0], 'C06.d-store-geometry')
     ctx.guard('C06.analysable', ctx.shared, {'C10.b-iterators': 'C06.e-one-shot-items-validated', 'C10.b-items-reach-add': 'C06.e-one-shot-items-validated'}, c10.both, ctx, f0, cfgs[0])
     for cfg in cfgs:
